@@ -32,6 +32,7 @@ from sa import pat
 from sa import pycfg
 from sa import rules_dup
 from sa import rules_order
+from sa import rules_trav
 from sa import setalg
 from sa import tpl
 from sa import trav
@@ -207,6 +208,9 @@ def check(model, rep, tier):
   rep.rule('HOIST-LAZY', 'statement-level hoisting respects laziness', floor=1)
   rep.rule('NEW-BINDING', 'templates assign only to fresh symbols or to what the '
            'user statement itself binds', floor=15)
+  rep.rule('LD-TRAV', 'the variable-access pass reaches every read of a variable '
+           '(each becomes ag__.ld(x), which raises UnboundLocalError for '
+           'Undefined)', floor=2)
   rep.rule('DUP-EVAL', 'a user expression is embedded in generated code at most '
            'once (template multiplicity; linear use in handlers)', floor=12)
 
@@ -602,6 +606,13 @@ def check(model, rep, tier):
                                 test_in_stmt_ctx},
             witness='while l.pop(): n += 1  (converted: infinite loop); '
             'c and l.pop()')
+
+  # ---------------------------------------------------------------- LD-TRAV
+  rules_trav.analysis_trav(
+      model, rep, 'LD-TRAV', CONV + 'variables.py', 'VariableAccessTransformer', {
+          ('AugAssign', 'target'): 'a name target is read through the '
+          '`var_ = ag__.ld(var_)` statement the handler emits in front; other '
+          'targets take the generic_visit branch (checked by the value field)'})
 
   # ---------------------------------------------------------------- DUP-EVAL
   csites = [s for s in sites if s.fi.module.rel.startswith(CONV) or
